@@ -13,14 +13,14 @@ MC_PROPS = ["INVARIANT TypeOK", "INVARIANT Readable", "PROPERTY FrameOK", "PROPE
             "PROPERTY ReadsMemory"]
 
 
-def mc_cfg(path, t1, t2, budget, depth, rich, emit=False, many=False):
+def mc_cfg(path, t1, t2, budget, depth, rich, emit=False, many=False, foreign=False):
     lines = []
     if emit:
         lines += ["INIT Init", "NEXT EmitNext", "CONSTRAINT EmitMem", "VIEW MemView"]
     else:
         lines += ["SPECIFICATION Spec", "VIEW MemDepth"] + MC_PROPS
     lines += ["CHECK_DEADLOCK FALSE", "CONSTANTS", ' T1 = "%s"' % t1, ' T2 = "%s"' % t2, " Budget = %d" % budget,
-              " Depth = %d" % depth, " Rich = %s" % ("TRUE" if rich else "FALSE"), " Many = %s" % ("TRUE" if many else "FALSE"), " Cfg <- MCfg", " Reqs <- MReqs",
+              " Depth = %d" % depth, " Rich = %s" % ("TRUE" if rich else "FALSE"), " Many = %s" % ("TRUE" if many else "FALSE"), " Foreign = %s" % ("TRUE" if foreign else "FALSE"), " Cfg <- MCfg", " Reqs <- MReqs",
               ' InitVals = "zero"', " MaxDepth <- Depth"]
     tlc.write_cfg(path, lines)
 
@@ -43,10 +43,10 @@ def run_model(ctx, wd, t1, t2, budget, depth, rich, name, many=False):
     return res
 
 
-def run_emit(ctx, wd, t1, t2, budget, depth, rich, name, many=False):
+def run_emit(ctx, wd, t1, t2, budget, depth, rich, name, many=False, foreign=False):
     """Emission: request catalogue (with the spec's encoding) and every memory reachable by <= depth writes."""
     cfgp = os.path.join(wd, "emit_%s.cfg" % name)
-    mc_cfg(cfgp, t1, t2, budget, depth, rich, emit=True, many=many)
+    mc_cfg(cfgp, t1, t2, budget, depth, rich, emit=True, many=many, foreign=foreign)
     res = tlc.run("MC_Logix", cfgp, spec_dir=wd, timeout=1500)
     ctx.ev.tlc("emit:" + name, res)
     cat = Catalogue()
